@@ -32,9 +32,16 @@ func (a *fakeAdmin) RemovePeer(url string) (bool, error)        { a.log.add("adm
 func (a *fakeAdmin) AddTrustedPeer(url string) (bool, error)    { a.log.add("admin_addTrustedPeer " + Tok(url)); return true, nil }
 func (a *fakeAdmin) RemoveTrustedPeer(url string) (bool, error) { a.log.add("admin_removeTrustedPeer " + Tok(url)); return true, nil }
 
-type fakeWeb3 struct{}
+type fakeParity struct{ log *rpcLog }
 
-func (fakeWeb3) ClientVersion() string { return "Geth/v1.8.21-stable/linux-amd64/go1.11" }
+func (a *fakeParity) AddReservedPeer(url string) (bool, error)    { a.log.add("parity_addReservedPeer " + Tok(url)); return true, nil }
+func (a *fakeParity) RemoveReservedPeer(url string) (bool, error) { a.log.add("parity_removeReservedPeer " + Tok(url)); return true, nil }
+
+func (a *fakeParity) Enode() (string, error) { return "enode://" + strings.Repeat("cd", 64) + "@127.0.0.1:30303", nil }
+
+type fakeWeb3 struct{ version string }
+
+func (w fakeWeb3) ClientVersion() string { return w.version }
 
 type fakeEth struct{}
 
@@ -57,12 +64,17 @@ func (c *ethRPCComp) Close() {
 	}
 }
 
-func (c *ethRPCComp) Reset(opts map[string]string, base int64) {
+func (c *ethRPCComp) Reset(opts map[string]string, base int64) { c.start("geth") }
+
+// start: an in-process RPC server announcing itself as a geth, parity or pantheon node
+func (c *ethRPCComp) start(kind string) {
 	c.Close()
 	c.log = &rpcLog{}
 	c.srv = rpc.NewServer()
 	c.srv.RegisterName("admin", &fakeAdmin{log: c.log})
-	c.srv.RegisterName("web3", fakeWeb3{})
+	c.srv.RegisterName("parity", &fakeParity{log: c.log})
+	c.srv.RegisterName("web3", fakeWeb3{version: map[string]string{"geth": "Geth/v1.8.21-stable/linux-amd64/go1.11", "parity": "Parity-Ethereum//v2.5.5-stable/x86_64-linux-gnu/rustc1.36.0",
+		"pantheon": "pantheon/v1.1.3/linux-x86_64/oracle-java-1.8"}[kind]})
 	c.srv.RegisterName("eth", fakeEth{})
 	c.srv.RegisterName("net", fakeNet{})
 	n, err := ethnode.RemoteNode(rpc.DialInProc(c.srv))
@@ -76,6 +88,13 @@ func (c *ethRPCComp) Exec(t []string) (extra []string, out string, eff bool) {
 	if len(t) != 2 {
 		return nil, "bad-op", false
 	}
+	if t[0] == "kind" {
+		if t[1] != "geth" && t[1] != "parity" && t[1] != "pantheon" {
+			return nil, "bad-op", false
+		}
+		c.start(t[1])
+		return nil, "ok " + c.node.Kind().String(), true
+	}
 	arg := Untok(t[1])
 	ctx, cancel := context.WithTimeout(context.Background(), 2*time.Second)
 	defer cancel()
@@ -83,6 +102,12 @@ func (c *ethRPCComp) Exec(t []string) (extra []string, out string, eff bool) {
 	c.log.calls = nil
 	c.log.mu.Unlock()
 	var err error
+	defer func() {
+		// a panic inside the node wrapper would take the agent's process down with it
+		if r := recover(); r != nil {
+			extra, out, eff = nil, "panic "+strings.Replace(fmt.Sprint(r), " ", "_", -1), true
+		}
+	}()
 	switch t[0] {
 	case "connect":
 		err = c.node.ConnectPeer(ctx, arg)
@@ -104,17 +129,20 @@ func (c *ethRPCComp) Exec(t []string) (extra []string, out string, eff bool) {
 }
 
 func (c *ethRPCComp) Gen(r *rand.Rand, idx int, emit func(string)) {
+	emit("kind " + []string{"geth", "parity", "pantheon"}[idx%3])
 	id := strings.Repeat("ab", 64)
 	addrs := []string{"1.2.3.4:30303", "127.0.0.1:30304", "localhost:30303", "[::1]:30303", "[::]:30303", "0.0.0.0:30303", "18.179.8.14:30303?discport=30301",
 		"[2001:db8::5]:30303", "host.example:30303", "10.0.0.9:1", "[fe80::1%25eth0]:30303"}
 	for i := 0; i < 12; i++ {
 		op := pick(r, []string{"connect", "connect", "connect", "disconnect", "trust", "untrust"})
 		var arg string
-		switch r.Intn(4) {
+		switch r.Intn(6) {
 		case 0:
 			arg = id // a bare id
 		case 1:
 			arg = "enode://" + id
+		case 2:
+			arg = pick(r, []string{"enode://", "enode://" + id + "@", "", "enode://@1.2.3.4:30303", "@"})
 		default:
 			arg = "enode://" + id + "@" + pick(r, addrs)
 		}
